@@ -66,6 +66,7 @@ class CollectionIterator {
 };
 
 class CollectionData {
+  ARDUINOJSON_VERIF_FRIEND
   SlotId head_ = NULL_SLOT;
   SlotId tail_ = NULL_SLOT;
 
